@@ -186,7 +186,7 @@ def run(tier, rep):
         for fam, lst in sorted(byfam.items()):
             lst.sort(key=lambda c: json.dumps(c, sort_keys=True))
             rng.shuffle(lst)
-            k = {"whfast": 22, "saba": 16, "eos": 10}.get(fam, 5)
+            k = {"whfast": 22, "saba": 16, "eos": 10}.get(fam, 5)       # (whfast512: all four)
             sel += lst[:k]
         # always include the keep_unsynchronized corners that admit variational particles
         for c in byfam.get("whfast", []):
@@ -196,6 +196,9 @@ def run(tier, rep):
             if c["keep"] and c["typ"] in (0, 6) and c["tcorr"] == 0 and c not in sel:
                 sel.append(c)
         cfgs = sel
+    # WHFast512 needs the AVX512 build; its configurations run in a second worker on that variant (when the CPU has the instructions)
+    c512 = [c for c in cfgs if c["fam"] == "whfast512"]
+    cfgs = [c for c in cfgs if c["fam"] != "whfast512"]
     cf = os.path.join(sc, "cfgs.json")
     json.dump(cfgs, open(cf, "w"))
     tf = os.path.join(sc, "traces.ndjson")
@@ -207,6 +210,23 @@ def run(tier, rep):
             rep.violation("crash", "real code crashed (signal %d) executing a call sequence" % -r.returncode, {"stderr": r.stderr[-2000:]})
             return
         raise MachineryError("worker failed: %s" % r.stderr[-3000:])
+    extra_numeric = []
+    if c512 and "avx512f" in open("/proc/cpuinfo").read():
+        common.build("avx512")
+        cf5, tf5, inf5 = os.path.join(sc, "cfgs512.json"), os.path.join(sc, "traces512.ndjson"), os.path.join(sc, "inner512.json")
+        json.dump(c512, open(cf5, "w"))
+        r = common.run_worker(os.path.join(HERE, "w_c09.py"), [cf5, tf5, inf5, str(common.seed()), "thorough"], env=env, variant="avx512", timeout=3000)
+        if r.returncode != 0:
+            if r.returncode < 0:
+                rep.violation("crash:whfast512", "real code crashed (signal %d) executing a WHFast512 call sequence" % -r.returncode, {"stderr": r.stderr[-2000:]})
+                return
+            raise MachineryError("WHFast512 worker failed: %s" % r.stderr[-3000:])
+        with open(tf, "a") as fh:
+            fh.write(open(tf5).read())
+        extra_numeric = json.load(open(inf5))["numeric"]
+        rep.cov["whfast512"] = "%d configurations traced on the AVX512 build" % len(c512)
+    else:
+        rep.cov["whfast512"] = "not exercised (no AVX512 on this CPU)"
     if not os.path.getsize(os.path.join(sc, "hook.txt")):
         raise MachineryError("no hook output (hook layer not compiled in?)")
     acc, n, res = check_traces(rep, tf, sc)
@@ -233,7 +253,7 @@ def run(tier, rep):
     rep.cov["inner_kinds_seen"] = len(kinds)
     # A5 sampled clause
     worst = {}
-    for x in o["numeric"]:
+    for x in o["numeric"] + extra_numeric:
         lim = 1e-10 if x["fam"] != "eos" else 100.0 * (x["ref"] or 0.0) + 1e-10
         worst[x["fam"]] = max(worst.get(x["fam"], 0.0), x["diff"])
         if not (x["diff"] <= lim):
